@@ -1,7 +1,344 @@
-import MaltModel.Conv.Contract
-/-! # C03 — emitted operator calls obey the operator calling contract (under construction) -/
-namespace Malt.Conv.Contract
+import MaltModel.Proofs.C03Store
+/-!
+# C03 — emitted operator calls obey the operator calling contract
 
-theorem C03_placeholder : True := trivial
+Model: `Conv/BlockVars.lean` (`_get_block_vars`), `Conv/ControlFlow.lean` (`ControlFlowTransformer`),
+`Conv/Contract.lean` (the contract as predicates on generated code + the verified checker + the store
+semantics of the state functions).  All theorems are about `cfOutput env nm root`, the output of the model
+of the pass, for ALL source trees `root`, ALL annotation tables / directive tables `env` and ALL namer states
+`nm`.  The only hypothesis is `cleanS root`: the source itself contains no statement `ag__.if_stmt(...)`,
+`ag__.while_stmt(...)`, `ag__.for_stmt(...)` (the `ag__` namespace belongs to the converter).
+
+`emitted g` lists every operator call of a tree with its functions resolved (`none` = malformed call), so
+"`∀ o ∈ emitted g, ∃ c, o = some c ∧ P c`" says: every call is well formed and satisfies `P`.
+-/
+namespace Malt.Conv.Contract
+open Malt Malt.Py Malt.Naming Malt.Conv.ControlFlow
+
+private theorem model_good (env : Env) (nm : Namer) (root : Stmt) (h : cleanS root = true) :
+    ∀ o ∈ emitted (cfOutput env nm root), ∃ c, o = some c ∧ Good c ∧ OptsOk env (sourceLoopsS root) c := by
+  intro o ho
+  obtain ⟨c, hc, hg, ho'⟩ := tStmt_good env (sourceLoopsS root) root {} nm h (fun _ hl => hl) [] o ho
+  exact ⟨c, hc, hg, ho'⟩
+
+/-- What `Good` gives about the state functions: one list of entries read by the getter and written by the setter. -/
+private theorem state_of_good {c : OpCall} (hg : Good c) :
+    ∃ gs ts es, getterTuple c = some gs ∧ setterTargets c = some ts ∧ entriesOf gs = some es ∧
+      ts.mapM exprQN = some (es.map (·.qn)) ∧ (es.map (·.qn)).Nodup ∧ es.length = c.names.length := by
+  obtain ⟨hl, ⟨gs, ts, hgs, hts, h3⟩, _, _, ⟨ts', qs, hts', hqs, hnd⟩, _⟩ := hg
+  obtain ⟨es, he, hq⟩ := entries_of_all3 h3
+  rw [hts] at hts'
+  cases hts'
+  rw [hq] at hqs
+  cases hqs
+  refine ⟨gs, ts, es, hgs, hts, he, hq, hnd, ?_⟩
+  have := mapM_length' he
+  rw [this, (All3.lengths h3).1]
+
+private theorem independent_of {es : List Entry} (h : dependentEntries es = false) :
+    Independent (es.map (·.qn)) := by
+  intro q hq k hk hmem
+  obtain ⟨e, he, rfl⟩ := List.mem_map.mp hq
+  have h1 := List.any_eq_false.mp h e he
+  have h2 : ∀ (x : String), x ∈ indexSyms e.qn → ∀ (x_1 : Entry), x_1 ∈ es → ¬x_1.qn = QN.sym x := by
+    simpa using h1
+  obtain ⟨e', he', hq'⟩ := List.mem_map.mp hmem
+  exact h2 k hk e' he' hq'
+
+private theorem locs_of {es : List Entry} {σ : Store} (h : aliasedEntries es σ = false) :
+    ∃ ls, (es.map (·.qn)).mapM (loc σ) = some ls ∧ ls.Nodup := by
+  unfold aliasedEntries at h
+  split at h
+  · rename_i ls hls
+    refine ⟨ls, ?_, ?_⟩
+    · rw [← hls]
+      clear hls h
+      induction es with
+      | nil => rfl
+      | cons e es ih => simp only [List.map_cons, List.mapM_cons, ih]
+    · apply nodupB_sound
+      simpa using h
+  · cases h
+
+private theorem set_get_of {c : OpCall} {gs ts : List Expr} {es : List Entry}
+    (hgs : getterTuple c = some gs) (hts : setterTargets c = some ts) (he : entriesOf gs = some es)
+    (hq : ts.mapM exprQN = some (es.map (·.qn))) (hlen : es.length = c.names.length)
+    (σ : Store) (vs : List Val) (n : Nat) (hdep : dependentEntries es = false) (hal : aliasedEntries es σ = false)
+    (hv : vs.length = c.names.length) :
+    ∃ σ', runSetter c vs σ = some σ' ∧ (runGetter c ⟨σ', n⟩).1 = some vs := by
+  obtain ⟨ls, hls, hnd⟩ := locs_of hal
+  obtain ⟨σ', hs, hgv⟩ := getS_setS es vs σ ls (independent_of hdep) hls hnd (by rw [hlen, hv])
+  refine ⟨σ', ?_, ?_⟩
+  · simp only [runSetter, hts, hq, setS, List.length_map, hlen, hv, if_true, hs]
+  · simp only [runGetter, hgs]
+    rw [evalGetter_eq_getS gs es _ he]
+    exact hgv
+
+private theorem get_set_of {c : OpCall} {gs ts : List Expr} {es : List Entry}
+    (hgs : getterTuple c = some gs) (hts : setterTargets c = some ts) (he : entriesOf gs = some es)
+    (hq : ts.mapM exprQN = some (es.map (·.qn)))
+    (σ : Store) (vs : List Val) (n : Nat) (hm : missingComposite c σ = false)
+    (hr : (runGetter c ⟨σ, n⟩).1 = some vs) : runSetter c vs σ = some σ := by
+  simp only [runGetter, hgs] at hr
+  rw [evalGetter_eq_getS gs es _ he] at hr
+  have hex : ∀ e ∈ es, e.guarded = true → (loc σ e.qn).bind σ ≠ none := by
+    intro e hmem hgd hnone
+    simp only [missingComposite, entries, hgs, Option.bind_some, he] at hm
+    have := List.any_eq_false.mp hm e hmem
+    simp [hgd, hnone] at this
+  have hvl : vs.length = es.length := mapM_length' hr
+  simp only [runSetter, hts, hq, setS, List.length_map, hvl, if_true]
+  exact setS_getS es vs σ hex hr
+
+/-! ## The syntactic contract -/
+
+/-- The names tuple, the tuple returned by the getter and the tuple assigned by the setter have equal length. -/
+theorem C03_lengths (env : Env) (nm : Namer) (root : Stmt) (h : cleanS root = true) :
+    ∀ o ∈ emitted (cfOutput env nm root), ∃ c, o = some c ∧ Lengths c := by
+  intro o ho
+  obtain ⟨c, hc, hg, _⟩ := model_good env nm root h o ho
+  exact ⟨c, hc, hg.1⟩
+
+/-- Position by position the three tuples denote the same variable: `names[i] = 's'`, `getter[i]` reads `qnOf s`
+(through `ag__.ldu(lambda: …, 's')` when `s` is composite), `setter[i]` assigns `qnOf s`. -/
+theorem C03_positions (env : Env) (nm : Namer) (root : Stmt) (h : cleanS root = true) :
+    ∀ o ∈ emitted (cfOutput env nm root), ∃ c, o = some c ∧ Positions c := by
+  intro o ho
+  obtain ⟨c, hc, hg, _⟩ := model_good env nm root h o ho
+  exact ⟨c, hc, hg.2.1⟩
+
+/-- The same, by index. -/
+theorem C03_positions_at (env : Env) (nm : Namer) (root : Stmt) (h : cleanS root = true) :
+    ∀ o ∈ emitted (cfOutput env nm root), ∃ c gs ts, o = some c ∧ getterTuple c = some gs ∧
+      setterTargets c = some ts ∧
+      ∀ (i : Nat) (n g t : Expr), c.names[i]? = some n → gs[i]? = some g → ts[i]? = some t → PosOk n g t := by
+  intro o ho
+  obtain ⟨c, hc, hg, _⟩ := model_good env nm root h o ho
+  obtain ⟨gs, ts, hgs, hts, h3⟩ := hg.2.1
+  refine ⟨c, gs, ts, hc, hgs, hts, ?_⟩
+  generalize c.names = ns at h3
+  clear hgs hts hg
+  induction h3 with
+  | nil => intro i n g t hn; simp at hn
+  | cons hp _ ih =>
+    intro i n g t hn hg' ht
+    cases i with
+    | zero =>
+      simp only [List.getElem?_cons_zero, Option.some.injEq] at hn hg' ht
+      subst hn hg' ht; exact hp
+    | succ j =>
+      simp only [List.getElem?_cons_succ] at hn hg' ht
+      exact ih j n g t hn hg' ht
+
+/-- No variable occurs twice in a state tuple. -/
+theorem C03_distinct (env : Env) (nm : Namer) (root : Stmt) (h : cleanS root = true) :
+    ∀ o ∈ emitted (cfOutput env nm root), ∃ c, o = some c ∧ Distinct c := by
+  intro o ho
+  obtain ⟨c, hc, hg, _⟩ := model_good env nm root h o ho
+  exact ⟨c, hc, hg.2.2.2.2.1⟩
+
+/-- getter 0, setter 1, body 0 (`for_stmt`: 1), orelse / test / extra_test 0 parameters — plain positional
+parameters only; `extra_test` may be `None` only in a `for_stmt`. -/
+theorem C03_arity (env : Env) (nm : Namer) (root : Stmt) (h : cleanS root = true) :
+    ∀ o ∈ emitted (cfOutput env nm root), ∃ c, o = some c ∧ Arity c := by
+  intro o ho
+  obtain ⟨c, hc, hg, _⟩ := model_good env nm root h o ho
+  exact ⟨c, hc, hg.2.2.1⟩
+
+/-- `nouts` of an `if_stmt` is an integer constant with `0 ≤ nouts ≤ len(symbol_names)`, and outputs occupy the
+positions `< nouts`: the names are `_get_block_vars`' variables of one `if` node, none of the first `nouts` is
+input-only and every later one is (`inputOnly` = modified, live into and not live out of the statement). -/
+theorem C03_nouts (env : Env) (nm : Namer) (root : Stmt) (h : cleanS root = true) :
+    ∀ o ∈ emitted (cfOutput env nm root), ∃ c, o = some c ∧ Nouts c ∧
+      (c.kind = .ifStmt → ∃ r : BlockVars.Result,
+        (∃ fs id, r = env.blockVars fs id ((env.scope id "BODY_SCOPE").bound ++ (env.scope id "ORELSE_SCOPE").bound)) ∧
+        c.names = r.scopeVars.map strConst ∧ natConst? c.last = some r.nouts ∧
+        r.nouts ≤ r.scopeVars.length ∧
+        (∀ v ∈ r.scopeVars.take r.nouts, r.inputOnly.contains v = false) ∧
+        (∀ v ∈ r.scopeVars.drop r.nouts, r.inputOnly.contains v = true)) := by
+  intro o ho
+  obtain ⟨c, hc, hg, hopt⟩ := model_good env nm root h o ho
+  refine ⟨c, hc, hg.2.2.2.1, ?_⟩
+  intro hk
+  simp only [OptsOk, hk] at hopt
+  obtain ⟨fs, id, hn, hl⟩ := hopt
+  refine ⟨_, ⟨fs, id, rfl⟩, hn, ?_, ?_⟩
+  · rw [hl]; exact natConst_intConst _
+  · exact BlockVars.blockVars_nouts ..
+
+/-- Loop options: a `for_stmt` carries exactly the `set_loop_options` keywords annotated on THAT source loop
+followed by `iterate_names` = the unparsed target of that loop (and its body function unpacks that target); a
+`while_stmt` carries exactly the keywords annotated on THAT loop (and its test function returns that loop's test). -/
+theorem C03_opts (env : Env) (nm : Namer) (root : Stmt) (h : cleanS root = true) :
+    ∀ o ∈ emitted (cfOutput env nm root), ∃ c, o = some c ∧
+      (c.kind = .forStmt → ∃ l ∈ sourceLoopsS root, l.isFor = true ∧
+        c.last = loopOptions env.dirs l.id [("iterate_names", strConst (unparseE l.header))] ∧
+        forBodyTarget c = some (splice .store l.header)) ∧
+      (c.kind = .whileStmt → ∃ l ∈ sourceLoopsS root, l.isFor = false ∧
+        c.last = loopOptions env.dirs l.id [] ∧ whileTest c = some (splice .load l.header)) := by
+  intro o ho
+  obtain ⟨c, hc, _, hopt⟩ := model_good env nm root h o ho
+  refine ⟨c, hc, ?_, ?_⟩ <;> intro hk <;> simp only [OptsOk, hk] at hopt <;> exact hopt
+
+/-! ## Getter / setter algebra (store semantics of `Conv.Contract`) -/
+
+/-- Reading state has no effect: every element of the getter tuple is a plain read, and evaluating the getter
+leaves the world (store and effect count) as it was. -/
+theorem C03_get_pure (env : Env) (nm : Namer) (root : Stmt) (h : cleanS root = true) :
+    ∀ o ∈ emitted (cfOutput env nm root), ∃ c, o = some c ∧ GetterPure c ∧ ∀ w : World, (runGetter c w).2 = w := by
+  intro o ho
+  obtain ⟨c, hc, hg, _⟩ := model_good env nm root h o ho
+  refine ⟨c, hc, hg.2.2.2.2.2, ?_⟩
+  obtain ⟨gs, hgs, hall⟩ := hg.2.2.2.2.2
+  intro w
+  simp only [runGetter, hgs]
+  exact evalGetter_pure gs w hall
+
+/-
+The full statement "a write followed by a read returns what was written",
+
+  theorem C03_set_get : ∀ o ∈ emitted (cfOutput env nm root), ∃ c, o = some c ∧
+      ∀ σ vs n, vs.length = c.names.length → ∃ σ', runSetter c vs σ = some σ' ∧ (runGetter c ⟨σ', n⟩).1 = some vs
+
+is FALSE of the pinned code for a state tuple such as `('dd[x]', 'x')`: the tuple assignment writes `dd[<old x>]`,
+then `x`, and the read evaluates `dd[<new x>]` (`C03_set_get_counterexample`; replayed on the real code by
+corpus/C03/index_in_state.json; finding class `state_entry_indexes_by_state_entry` = `dependentEntries es = true`).
+It also fails when two entries alias at run time (`aliasedEntries es σ = true`).  What holds:
+-/
+
+/-- A write followed by a read returns what was written, `get (set vs σ) = vs`, PROVIDED no entry's location
+depends on a variable of the same tuple and the entries denote pairwise distinct locations at call time. -/
+theorem C03_set_get_partial (env : Env) (nm : Namer) (root : Stmt) (h : cleanS root = true) :
+    ∀ o ∈ emitted (cfOutput env nm root), ∃ c es, o = some c ∧ entries c = some es ∧
+      ∀ (σ : Store) (vs : List Val) (n : Nat), dependentEntries es = false → aliasedEntries es σ = false →
+        vs.length = c.names.length →
+        ∃ σ', runSetter c vs σ = some σ' ∧ (runGetter c ⟨σ', n⟩).1 = some vs := by
+  intro o ho
+  obtain ⟨c, hc, hg, _⟩ := model_good env nm root h o ho
+  obtain ⟨gs, ts, es, hgs, hts, he, hq, hnd, hlen⟩ := state_of_good hg
+  refine ⟨c, es, hc, by simp [entries, hgs, he], ?_⟩
+  intro σ vs n hdep hal hv
+  exact set_get_of hgs hts he hq hlen σ vs n hdep hal hv
+
+/-- The counterexample to the full statement: the state tuple `('dd[x]', 'x')` with `x = 0`, written with `(1, 2)`,
+reads back `(Undefined, 2)`. -/
+theorem C03_set_get_counterexample :
+    let es : List Entry := [{ qn := .sub (.sym "dd") (.sym "x"), guarded := true, label := strConst "dd[x]" },
+                            { qn := .sym "x", guarded := false, label := .noneMarker }]
+    let σ : Store := fun q => if q = .sym "x" then some (.int 0) else none
+    let vs : List Val := [.int 1, .int 2]
+    dependentEntries es = true ∧ aliasedEntries es σ = false ∧
+    ∃ σ', assignSeq (es.map (·.qn)) vs σ = some σ' ∧ getS es σ' ≠ some vs := by
+  intro es σ vs
+  have h20 : Int.repr 2 ≠ Int.repr 0 := by simp [Int.repr]
+  refine ⟨by simp [es, dependentEntries, indexSyms], ?_, _, rfl, ?_⟩
+  · simp [es, σ, aliasedEntries, loc, resolveIdx, valLit, nodupB]
+  · simp [es, vs, σ, getS, readEntry, loc, resolveIdx, update, valLit, h20]
+
+/-
+The full statement "writing back what was just read changes nothing",
+
+  theorem C03_get_set : ∀ o ∈ emitted (cfOutput env nm root), ∃ c, o = some c ∧
+      ∀ σ vs n, (runGetter c ⟨σ, n⟩).1 = some vs → runSetter c vs σ = some σ
+
+is FALSE of the pinned code: a composite entry (`d['k']`, `o.a`) that the store lacks is read through `ag__.ldu`
+as `Undefined('d[…]')`, and the write-back then CREATES it (`C03_get_set_counterexample` below; replayed on the
+real code by corpus/C03/missing_composite.json; finding class `missing_composite_written_back` =
+`missingComposite c σ = true`).  What holds:
+-/
+
+/-- Writing back what was just read changes nothing, PROVIDED every guarded (composite) entry of the state tuple
+exists in the store at call time. -/
+theorem C03_get_set_partial (env : Env) (nm : Namer) (root : Stmt) (h : cleanS root = true) :
+    ∀ o ∈ emitted (cfOutput env nm root), ∃ c, o = some c ∧
+      ∀ (σ : Store) (vs : List Val) (n : Nat), missingComposite c σ = false →
+        (runGetter c ⟨σ, n⟩).1 = some vs → runSetter c vs σ = some σ := by
+  intro o ho
+  obtain ⟨c, hc, hg, _⟩ := model_good env nm root h o ho
+  obtain ⟨gs, ts, es, hgs, hts, he, hq, _, _⟩ := state_of_good hg
+  exact ⟨c, hc, fun σ vs n hm hr => get_set_of hgs hts he hq σ vs n hm hr⟩
+
+/-- The counterexample to the full statement: the state tuple `("d['k']",)` of `if a: d['k'] = 1` in a store where
+`d` is bound and `d['k']` is missing: the guarded read yields `Undefined`, the write-back creates the entry.
+(`getterDen_guardedVar`: every composite state variable is read through `ag__.ldu`, i.e. is such a guarded entry.) -/
+theorem C03_get_set_counterexample :
+    let e : Entry := { qn := .sub (.sym "d") (.lit "str" "'k'"), guarded := true, label := strConst "d['k']" }
+    let σ : Store := fun q => if q = .sym "d" then some (.obj 0) else none
+    ∃ (vs : List Val) (σ' : Store), getS [e] σ = some vs ∧ assignSeq [e.qn] vs σ = some σ' ∧ σ' ≠ σ := by
+  intro e σ
+  refine ⟨[.undef (labelStr e.label)], _, ?_, rfl, ?_⟩
+  · simp [e, σ, getS, readEntry, loc, resolveIdx]
+  · intro heq
+    have := congrFun heq (.sub (.sym "d") (.lit "str" "'k'"))
+    simp [e, σ, update] at this
+
+/-- Hence the unconditional law fails. -/
+theorem C03_get_set_full_is_false :
+    ¬ ∀ (es : List Entry) (vs : List Val) (σ σ' : Store), getS es σ = some vs →
+        assignSeq (es.map (·.qn)) vs σ = some σ' → σ' = σ := by
+  intro hall
+  obtain ⟨vs, σ', h1, h2, h3⟩ := C03_get_set_counterexample
+  exact h3 (hall _ vs _ σ' h1 h2)
+
+/-! ### Non-vacuity of the hypotheses -/
+
+/-- `cleanS` holds of ordinary source trees (here `if c: x = 1` followed by nothing), so the theorems above apply. -/
+example : cleanS (.if_ 1 (.name 2 "c" .load) [.assign 3 [.name 4 "x" .store] (.const 5 "int" "1"),
+    .expr 6 (.call 7 (.name 8 "tr" .load) [] [])] []) = true := by
+  simp [cleanS, cleanL, isOpCall, opCall?, agOp?]
+
+/-- ... and fails of a tree that calls the operator itself. -/
+example : cleanS (.expr 1 (.call 2 (.attr 3 (.name 4 "ag__" .load) "if_stmt" .load) [] [])) = false := by
+  simp [cleanS, isOpCall, opCall?, agOp?, kindOfOp]
+
+/-- A store in which the guarded entry `o.a` exists satisfies the hypothesis of `C03_get_set_partial`, and the
+law holds there; with the entry missing the hypothesis fails. -/
+example :
+    let e : Entry := { qn := .attr (.sym "o") "a", guarded := true, label := strConst "o.a" }
+    let σ : Store := fun q => if q = .attr (.sym "o") "a" then some (.int 7) else none
+    getS [e] σ = some [.int 7] ∧ assignSeq [e.qn] [.int 7] σ = some σ ∧
+    ((loc σ e.qn).bind σ).isNone = false ∧ ((loc (fun _ => none) e.qn).bind (fun _ => none : Store)).isNone = true := by
+  intro e σ
+  refine ⟨by simp [e, σ, getS, readEntry, loc], ?_, by simp [e, σ, loc], by simp [e, loc]⟩
+  have : update σ (.attr (.sym "o") "a") (.int 7) = σ := by
+    funext q
+    by_cases hq : q = .attr (.sym "o") "a" <;> simp [σ, update, hq]
+  simp [e, assignSeq, loc, this]
+
+/-- The hypotheses of `C03_set_get_partial` hold of the tuple `('o.a', 'x')` in any store. -/
+example (σ : Store) :
+    let es : List Entry := [{ qn := .attr (.sym "o") "a", guarded := true, label := strConst "o.a" },
+                            { qn := .sym "x", guarded := false, label := .noneMarker }]
+    dependentEntries es = false ∧ aliasedEntries es σ = false := by
+  intro es
+  exact ⟨by simp [es, dependentEntries, indexSyms], by simp [es, aliasedEntries, loc, nodupB]⟩
+
+/-! ## The verified checker (run on the REAL final generated code) -/
+
+/-- `contractOk g = true` implies: every operator call of `g` is well formed and satisfies lengths, positions,
+arity, nouts bounds, distinctness and getter purity. -/
+theorem C03_contractOk_sound (g : ParsedOutput) (h : contractOk g = true) :
+    ∀ o ∈ emitted g, ∃ c, o = some c ∧ Lengths c ∧ Positions c ∧ Arity c ∧ Nouts c ∧ Distinct c ∧ GetterPure c :=
+  contractOk_sound' h
+
+/-- For code accepted by the checker the getter/setter algebra holds as for the model's output. -/
+theorem C03_contractOk_algebra (g : ParsedOutput) (h : contractOk g = true) :
+    ∀ o ∈ emitted g, ∃ c es, o = some c ∧ entries c = some es ∧ (∀ w : World, (runGetter c w).2 = w) ∧
+      (∀ (σ : Store) (vs : List Val) (n : Nat), dependentEntries es = false → aliasedEntries es σ = false →
+        vs.length = c.names.length → ∃ σ', runSetter c vs σ = some σ' ∧ (runGetter c ⟨σ', n⟩).1 = some vs) ∧
+      (∀ (σ : Store) (vs : List Val) (n : Nat), missingComposite c σ = false →
+        (runGetter c ⟨σ, n⟩).1 = some vs → runSetter c vs σ = some σ) := by
+  intro o ho
+  obtain ⟨c, hc, hg⟩ := contractOk_sound' h o ho
+  obtain ⟨gs, ts, es, hgs, hts, he, hq, _, hlen⟩ := state_of_good hg
+  refine ⟨c, es, hc, by simp [entries, hgs, he], ?_, ?_, ?_⟩
+  · obtain ⟨gs', hgs', hall⟩ := hg.2.2.2.2.2
+    intro w
+    simp only [runGetter, hgs']
+    exact evalGetter_pure gs' w hall
+  · intro σ vs n hdep hal hv
+    exact set_get_of hgs hts he hq hlen σ vs n hdep hal hv
+  · intro σ vs n hm hr
+    exact get_set_of hgs hts he hq σ vs n hm hr
 
 end Malt.Conv.Contract
